@@ -1345,6 +1345,9 @@ class ThreadsafeForwardingResult(TestResult):
 
     def startTestRun(self):
         super().startTestRun()
+        # A new run starts with no tags: forget the buffered ones as well.
+        self._global_tags = set(), set()
+        self._test_tags = set(), set()
         self.semaphore.acquire()
         try:
             self.result.startTestRun()
